@@ -387,7 +387,7 @@ def check_base(facts, meng, fn, kind):
     other_root = 2
     n, _elt = elem_count(facts, fn, self_root)
     if n is None:
-        return False, "operand type is not a newtype around a limb array"
+        return False, "undecided: operand type is not a newtype around a limb array"
     s = pe.sel()
     roots = (1,) if kind == "set_cond" else (1, 2)
     seen = {r: set() for r in roots}
@@ -501,7 +501,7 @@ def check_delegating(facts, meng, fn, kind, verified):
         return False, "undecided: no control-word parameter identified"
     nf, td = struct_field_count(facts, fn, 1)
     if nf is None:
-        return False, "receiver is not a struct"
+        return False, "undecided: receiver is not a struct"
     covered = set()
     blocked = None
     for bi in body.reach:
@@ -649,7 +649,7 @@ def check_select_inline(facts, meng, fn):
         if r is not None:
             return r
     if limbs is None or n is None:
-        return False, "no set_cond call and the returned value is not an aggregate of bitwise limb expressions"
+        return False, "undecided: no set_cond call and the returned value is not an aggregate of bitwise limb expressions"
     if len(limbs) != n:
         return False, "returned aggregate has %d limbs, representation has %d" % (len(limbs), n)
     s_ = pe.sel()
@@ -850,7 +850,28 @@ def check_lookup(facts, fn, verified):
     ev = FnEval(facts, body)
     tp, L = _table_param(facts, fn)
     if tp is None:
-        return False, "no fixed-size table parameter"
+        return False, "undecided: no fixed-size table parameter"
+
+    def table_escapes():
+        """the table (or a reborrow of it) is handed to a call that is not an indexing operation: iterator / helper"""
+        al = {tp}
+        for _ in range(4):
+            for l in range(fn["argc"] + 1, len(fn["locals"])):
+                d = body.single_def(l)
+                if d and d[2] == "A":
+                    rv = d[3][2]
+                    if rv[0] in ("ref", "rawptr") and rv[2][0] in al and all(e == "*" for e in rv[2][1:]):
+                        al.add(l)
+                    elif rv[0] in ("use", "cast") and (rv[1] if rv[0] == "use" else rv[2])[0] in ("cp", "mv") \
+                            and len((rv[1] if rv[0] == "use" else rv[2])[1]) == 1 and (rv[1] if rv[0] == "use" else rv[2])[1][0] in al:
+                        al.add(l)
+        for bi in body.reach:
+            t = body.blocks[bi]["t"]
+            if t[0] == "call" and "::index" not in t[1]["f"]:
+                for o in t[2]:
+                    if o[0] in ("cp", "mv") and len(o[1]) == 1 and o[1][0] in al:
+                        return True
+        return False
     # the index parameter must reach the comparisons with all its bits: no narrowing cast of (a copy of) it
     for bi in body.reach:
         for st in body.blocks[bi]["s"]:
@@ -934,6 +955,8 @@ def check_lookup(facts, fn, verified):
                         vp(o[1])
         if not nonconst and idx == set(range(L)):
             return True, "unrolled scan: all %d entries read with constant indices" % L
+        if not nonconst and table_escapes():
+            return False, "undecided: the table is handed to an iterator or helper (no index expression to enumerate)"
         return False, "no loop over the table, no delegation to a scanning lookup, and constant indices %s do not cover 0..%d%s" % (
             sorted(idx)[:8], L - 1, " (data-dependent index present)" if nonconst else "")
     # every loop: Range 0..const, single exit (ignoring unreachable arms)
@@ -1032,6 +1055,8 @@ def check_lookup(facts, fn, verified):
     if bad:
         return False, "table index inside the scan: %s" % bad[0]
     if not forms:
+        if table_escapes():
+            return False, "undecided: the table is handed to an iterator or helper (no index expression to enumerate)"
         return False, "the scan loop never indexes the table with its loop variable"
     covered = set()
     import itertools
@@ -1089,7 +1114,7 @@ def run_lookups(facts, run, prop="C20"):
             n_ok += 1
             if n_ok % 5 == 0:
                 run.sample("K4 %s: %s (config %s)" % (fn["name"], why, cfg))
-        elif ok is False:
+        elif ok is False and not why.startswith("undecided:"):
             run.add(Finding("K4", norm_name(fn["name"]),
                             "muxshape K4: constant-time lookup %s (%s:%s) does not provably scan its whole table: %s" % (
                                 fn["name"], fn["file"], fn["line"], why), config=cfg, site="%s:%s" % (fn["file"], fn["line"]), prop=prop))
